@@ -16,6 +16,7 @@ import (
 )
 
 type retSite struct {
+	cells map[*ssa.Alloc]*val
 	label string
 	reach string
 	vals  []*val
@@ -24,6 +25,7 @@ type retSite struct {
 }
 
 type localBind struct {
+	cell   *ssa.Alloc
 	b      *ssa.BasicBlock
 	v      *val
 	isAddr bool
@@ -55,6 +57,7 @@ type fnCtx struct {
 	loopNames      map[*ssa.BasicBlock]map[string]*val
 	loopEntryNames map[*ssa.BasicBlock]map[string]*val
 	loopGLEntry map[*ssa.BasicBlock]string
+	loopCells   map[*ssa.BasicBlock][]*ssa.Alloc
 	curH           heap
 	curAC          string
 	curR           string
@@ -67,6 +70,14 @@ type fnCtx struct {
 	specMode bool
 	allocNames map[string]bool
 	stackRefs  []string
+	instFns    []*instFn
+	instSeen   map[string]bool
+	instTerms  []string
+	fwd        map[string]*val
+	cells      map[*ssa.Alloc]*val // promoted non-escaping locals (whole-value cells), see promotable()
+	cellsOut   map[*ssa.BasicBlock]map[*ssa.Alloc]*val
+	promo      map[*ssa.Alloc]bool
+	sliceLos   []string
 }
 
 type deferred struct {
@@ -80,7 +91,7 @@ func (g *gen) newFnCtx(fn *ssa.Function, pfx string, depth int, parent *fnCtx) *
 	return &fnCtx{g: g, fn: fn, pfx: pfx, depth: depth, parent: parent, vals: map[ssa.Value]*val{}, mutexes: map[string][2]string{},
 		reach: map[*ssa.BasicBlock]string{}, heapOut: map[*ssa.BasicBlock]heap{}, acOut: map[*ssa.BasicBlock]string{},
 		loopOrd: map[*ssa.BasicBlock]int{}, loopEntryH: map[*ssa.BasicBlock]heap{}, loopEntryAC: map[*ssa.BasicBlock]string{},
-		loopHdrH: map[*ssa.BasicBlock]heap{}, loopMod: map[*ssa.BasicBlock][]string{}, loopNames: map[*ssa.BasicBlock]map[string]*val{}, loopEntryNames: map[*ssa.BasicBlock]map[string]*val{}, loopGLEntry: map[*ssa.BasicBlock]string{},
+		loopHdrH: map[*ssa.BasicBlock]heap{}, loopMod: map[*ssa.BasicBlock][]string{}, loopNames: map[*ssa.BasicBlock]map[string]*val{}, loopEntryNames: map[*ssa.BasicBlock]map[string]*val{}, loopGLEntry: map[*ssa.BasicBlock]string{}, cellsOut: map[*ssa.BasicBlock]map[*ssa.Alloc]*val{}, loopCells: map[*ssa.BasicBlock][]*ssa.Alloc{},
 		locals: map[string][]localBind{}}
 }
 
@@ -117,6 +128,14 @@ func (fc *fnCtx) wfRefAssume(v *val, ac string, guard string) {
 		return
 	}
 	f := fmt.Sprintf("(< %s %s)", r, ac)
+	if v.k == kPtr && len(v.t) > 1 {
+		// offsets are field/element offsets inside an object of at most MAXLEN slots
+		f = fmt.Sprintf("(and %s (bvsle %s %s) (bvslt %s MAXLEN))", f, z64, v.t[1], v.t[1])
+	}
+	if v.k == kPtr || v.k == kIface || v.k == kOpaque || (v.k == kSlice && !byteSliceType(v.ty)) {
+		// only strings and byte slices can designate the immutable string-constant objects
+		f = fmt.Sprintf("(and %s (> %s (- %d)))", f, r, strRefBase)
+	}
 	if guard != "" && guard != "true" {
 		f = fmt.Sprintf("(=> %s %s)", guard, f)
 	}
@@ -158,7 +177,7 @@ func (fc *fnCtx) bindParamsFresh() {
 	if c := g.w.contractOf(fc.fn); c != nil {
 		sc := fc.specCtxEntry()
 		for _, r := range c.requires {
-			f, err := sc.boolExpr(r.expr)
+			f, err := sc.assumeSpec(r.expr)
 			if err != nil {
 				fatalContract(fc.fn, "requires", r.expr, err)
 			}
@@ -504,11 +523,13 @@ func (fc *fnCtx) run() {
 		fc.curB = b
 		isHeader := fc.loopOrd[b] > 0
 		if b == fn.Blocks[0] {
+			fc.cells = map[*ssa.Alloc]*val{}
 			fc.curR, fc.curH, fc.curAC = fc.entryReach, fc.entryHeap.clone(), fc.entryAC
 		} else {
 			var conds []string
 			var hin heap
 			var acin string
+			var cin map[*ssa.Alloc]*val
 			first := true
 			for _, p := range b.Preds {
 				if isBackEdge(p, b) {
@@ -521,7 +542,18 @@ func (fc *fnCtx) run() {
 				conds = append(conds, e)
 				if first {
 					hin, acin, first = fc.heapOut[p].clone(), fc.acOut[p], false
+					cin = map[*ssa.Alloc]*val{}
+					for a, v := range fc.cellsOut[p] {
+						cin[a] = v
+					}
 				} else {
+					for a, v := range fc.cellsOut[p] {
+						if old, ok := cin[a]; !ok {
+							cin[a] = v
+						} else if old != v {
+							cin[a] = fc.ite(e, v, old)
+						}
+					}
 					for k, t := range fc.heapOut[p] {
 						if hin[k] != t {
 							hin[k] = fmt.Sprintf("(ite %s %s %s)", e, t, hin[k])
@@ -542,6 +574,10 @@ func (fc *fnCtx) run() {
 				g.assume(fmt.Sprintf("(= %s (or %s))", r, strings.Join(conds, " ")))
 			}
 			fc.curR, fc.curH, fc.curAC = r, hin, acin
+			fc.cells = map[*ssa.Alloc]*val{}
+			for a, v := range cin {
+				fc.cells[a] = fc.named(fc.pfx+"cell_"+a.Comment, v)
+			}
 			for k, t := range fc.curH {
 				if strings.HasPrefix(t, "(ite") {
 					fc.curH[k] = g.bind(k+"_m", heapSort(kindSort(k)), t)
@@ -563,6 +599,11 @@ func (fc *fnCtx) run() {
 		}
 		fc.heapOut[b] = fc.curH
 		fc.acOut[b] = fc.curAC
+		co := map[*ssa.Alloc]*val{}
+		for a, v := range fc.cells {
+			co[a] = v
+		}
+		fc.cellsOut[b] = co
 
 		for _, s := range b.Succs {
 			if isBackEdge(b, s) {
@@ -621,12 +662,36 @@ func (fc *fnCtx) loopHeader(b *ssa.BasicBlock, c *contract) {
 			}
 		}
 	}
+	// promoted cells written inside the loop are loop-carried variables
+	var loopCells []*ssa.Alloc
+	for lb := range loopBlocks(b) {
+		for _, in := range lb.Instrs {
+			if st, ok := in.(*ssa.Store); ok {
+				if a, ok := st.Addr.(*ssa.Alloc); ok && fc.promotable(a) {
+					dup := false
+					for _, x := range loopCells {
+						dup = dup || x == a
+					}
+					if _, live := fc.cells[a]; live && !dup {
+						loopCells = append(loopCells, a)
+					}
+				}
+			}
+		}
+	}
+	sort.Slice(loopCells, func(i, j int) bool { return loopCells[i].Pos() < loopCells[j].Pos() })
+	for _, a := range loopCells {
+		if a.Comment != "" {
+			entryMap[a.Comment] = fc.cells[a]
+		}
+	}
 	loopACe := g.bind("ACe", "Int", fc.curAC)
 	fc.loopEntryNames[b] = entryMap
 	fc.loopEntryAC[b] = loopACe
 	for _, inv := range invs {
 		sc := fc.specCtxAt(entryMap, fc.curH)
 		sc.loopHdr = b
+		sc.prove = true
 		f, err := sc.boolExpr(inv.expr)
 		if err != nil {
 			fatalContract(fc.fn, "invariant", inv.expr, err)
@@ -636,6 +701,13 @@ func (fc *fnCtx) loopHeader(b *ssa.BasicBlock, c *contract) {
 	// havoc: objects existing at loop entry and not in the modifies set keep their contents (checked on the back edge);
 	// objects in the modifies set and objects allocated since are unconstrained.
 	effects, bases, _ := fc.loopEffects(b)
+	if c != nil {
+		for _, a := range c.loopAssign[n] {
+			if a == "*" {
+				g.loopHavocAll[b] = true // `loop N assigns *`: no frame; the invariants carry everything
+			}
+		}
+	}
 	if effects && g.loopHavocAll[b] {
 		// the body calls code without a frame: nothing about the heap survives the loop except what the invariants say
 		glEntry := g.bind("GL_e", heapSort("Int"), fc.curH["GL"])
@@ -658,6 +730,9 @@ func (fc *fnCtx) loopHeader(b *ssa.BasicBlock, c *contract) {
 		}
 		if c != nil {
 			for _, a := range c.loopAssign[n] {
+				if a == "*" {
+					continue
+				}
 				sc := fc.specCtxAt(entryMap, fc.curH)
 				v, err := sc.term(a)
 				if err != nil {
@@ -713,6 +788,16 @@ func (fc *fnCtx) loopHeader(b *ssa.BasicBlock, c *contract) {
 			hmap[phi.Comment] = v
 		}
 	}
+	for _, a := range loopCells {
+		v := g.newVal(fc.pfx+"cell_"+a.Comment, a.Type().Underlying().(*types.Pointer).Elem())
+		fc.wfRefAssume(v, fc.curAC, fc.curR)
+		fc.classAssume(v, a.Type().Underlying().(*types.Pointer).Elem(), fc.curR)
+		fc.cells[a] = v
+		if a.Comment != "" {
+			hmap[a.Comment] = v
+		}
+	}
+	fc.loopCells[b] = loopCells
 	fc.loopNames[b] = hmap
 	// automatic invariant of range loops: -1 <= idx < len (or idx == -1)
 	if phi, lim := rangeIndexPhi(b); phi != nil {
@@ -742,7 +827,8 @@ func (fc *fnCtx) loopHeader(b *ssa.BasicBlock, c *contract) {
 	for _, inv := range invs {
 		sc := fc.specCtxAt(hmap, fc.curH)
 		sc.loopHdr = b
-		f, err := sc.boolExpr(inv.expr)
+		sc.cguards = []string{fc.curR}
+		f, err := sc.assumeSpec(inv.expr)
 		if err != nil {
 			fatalContract(fc.fn, "invariant", inv.expr, err)
 		}
@@ -776,6 +862,11 @@ func (fc *fnCtx) backEdge(b, s *ssa.BasicBlock, c *contract) {
 			}
 		}
 	}
+	for _, a := range fc.loopCells[s] {
+		if a.Comment != "" {
+			bmap[a.Comment] = fc.cells[a]
+		}
+	}
 	e := fc.edgeCond(b, s)
 	if eh, ok := fc.loopEntryH[s]; ok {
 		var parts []string
@@ -806,6 +897,7 @@ func (fc *fnCtx) backEdge(b, s *ssa.BasicBlock, c *contract) {
 	for _, inv := range c.invariants[n] {
 		sc := fc.specCtxAt(bmap, fc.curH)
 		sc.loopHdr = s
+		sc.prove = true
 		f, err := sc.boolExpr(inv.expr)
 		if err != nil {
 			fatalContract(fc.fn, "invariant", inv.expr, err)
@@ -918,6 +1010,7 @@ func (g *gen) finishTop(fc *fnCtx) {
 	for i, rs := range fc.rets {
 		for k, e := range c.ensures {
 			sc := fc.specCtxRet(rs)
+			sc.prove = true
 			f, err := sc.boolExpr(e.expr)
 			if err != nil {
 				fatalContract(fc.fn, "ensures", e.expr, err)
@@ -975,6 +1068,7 @@ func (fc *fnCtx) v(x ssa.Value) *val {
 		v = fc.constVal(c)
 	case *ssa.Global:
 		v = &val{k: kPtr, ty: c.Type(), t: []string{g.w.globalRef(c.Pkg.Pkg.Path() + "." + c.Name()), z64}}
+		fc.classAssume(v, c.Type(), "")
 	case *ssa.Function:
 		v = &val{k: kOpaque, ty: c.Type(), t: []string{g.w.globalRef("func:" + c.String())}}
 	case *ssa.Builtin:
@@ -1119,7 +1213,7 @@ func (g *gen) ifaceObligations(fc *fnCtx) {
 		shell := g.w.prog.NewFunction(fn.Name(), msig, "iface contract")
 		for i, rs := range fc.rets {
 			for k, e := range c.ensures {
-				sc := &specCtx{fc: fc, g: g, fn: shell, args: env, h: rs.h, oldH: fc.entryHeap, results: rs.vals, guard: rs.reach, ifacePkg: fn.Pkg.Pkg}
+				sc := &specCtx{fc: fc, g: g, fn: shell, args: env, h: rs.h, oldH: fc.entryHeap, results: rs.vals, guard: rs.reach, ifacePkg: fn.Pkg.Pkg, prove: true}
 				f, err := sc.boolExpr(e.expr)
 				if err != nil {
 					panic(fmt.Sprintf("iface contract %s ensures %q: %v", ikey, e.expr, err))
@@ -1274,4 +1368,49 @@ func (rs retSite) lbl(i int) string {
 		return rs.label
 	}
 	return fmt.Sprintf("ret%d", i+1)
+}
+
+func byteSliceType(t types.Type) bool {
+	if t == nil {
+		return true // unknown: be permissive
+	}
+	switch u := t.Underlying().(type) {
+	case *types.Basic:
+		return u.Info()&types.IsString != 0
+	case *types.Slice:
+		w, _, ok := intW(u.Elem())
+		return ok && w == 8
+	}
+	return false
+}
+
+// promotable: a local that never escapes and is only read and written as a whole is kept as a value per program point
+// (like a register) instead of a heap cell; this covers the named results of functions with defer.
+func (fc *fnCtx) promotable(a *ssa.Alloc) bool {
+	if fc.promo == nil {
+		fc.promo = map[*ssa.Alloc]bool{}
+	}
+	if r, ok := fc.promo[a]; ok {
+		return r
+	}
+	ok := !a.Heap && !fc.g.lite && a.Referrers() != nil
+	if ok {
+		for _, ref := range *a.Referrers() {
+			switch x := ref.(type) {
+			case *ssa.Store:
+				if x.Addr != a || x.Val == a {
+					ok = false
+				}
+			case *ssa.UnOp:
+				if x.Op != token.MUL {
+					ok = false
+				}
+			case *ssa.DebugRef:
+			default:
+				ok = false
+			}
+		}
+	}
+	fc.promo[a] = ok
+	return ok
 }
